@@ -451,3 +451,10 @@ def run(ctx):
     ctx.rule('C10.1-identifier-fields-verbatim', 'every pid / port / reference parser passes the integers it read to the constructor unchanged (widening only): masking "reserved" bits or any other arithmetic '
              'makes the identifier written back differ from the one received', floor=10)
     _verb10(ctx, 'C10.1-identifier-fields-verbatim')
+
+    # ... and to the field they were read for: the k-th number read is the k-th number the encoder writes
+    ctx.rule('C10.1-identifier-field-order', 'every parser that builds a pid / port / reference (or a fun carrying one) through its constructor feeds each constructor argument from the wire read at the position '
+             'where the encoder writes that field (rule C03.2-field-order re-run): two numbers of the same width exchanged on the way in are written back exchanged', floor=6)
+    from . import c03 as _c03_10
+    if type(ctx).__name__ != 'SubCtx':
+        _c03_10.run(_Sub10(ctx, 'C10.1-identifier-field-order', 'c03', allow=('C03.2-field-order',)))
